@@ -250,7 +250,10 @@ def contract_stub(spec_getter):
         def havoc_state():
             s2 = st.fork()
             sets = {}
-            for f in (spec.modifies or ()):
+            # a callee contract without a modifies clause may write anything: every field the caller sees is havocked
+            for f in (spec.modifies if spec.modifies is not None else (list(decl) if spec.self_class else ())):
+                if f not in decl:
+                    continue        # the caller's view of the class has no such field (see the frame check below)
                 v = ex.fresh(s2, decl[f], 'mod_' + f)
                 sets[f] = v
                 s2.set_field(recv, f, v)
@@ -262,6 +265,13 @@ def contract_stub(spec_getter):
                 st.heap['__created__'] = s2.heap['__created__']
             st.next_addr = max(st.next_addr, s2.next_addr)
             return s2, sets
+        # a field the callee may write but the caller's class view does not declare cannot be checked by the caller's
+        # own frame obligations: it has to be in the caller's modifies clause
+        if recv is not None and ex.self_ref is not None and recv.addr == ex.self_ref.addr and \
+                ex.spec.modifies is not None:
+            for f in (spec.modifies or ()):
+                if f not in decl and f not in ex.spec.modifies:
+                    cx.require(f'frame({f})-written-by-callee-not-in-modifies', z3.BoolVal(False))
         s2, sets = havoc_state()
         r = ex.fresh(s2, spec.returns, 'ret_' + spec.qualname.replace('.', '_')) if spec.returns else VNone
         # an object-typed return value is allocated in s2: it must exist in the caller's state too
